@@ -107,6 +107,30 @@ let run (cmd : string) (a : v) : v =
         | Raised e -> L [S "raise"; vnat e]
         | Stats s -> L [S "stats"; vlist (fun (n, (sm, dv)) -> L [vnat n; I (int_of_z sm); vnat dv]) s]
         | Cleared -> L [S "cleared"]) obs
+  | "sched_run", L [L ps; L ls; L ops] ->
+      let q_of = function L [I n; I d] -> { qnum = z_of_int n; qden = pos_of_int d } | _ -> failwith "q" in
+      let vq q = L [I (int_of_z q.qnum); I (int_of_pos q.qden)] in
+      let par = function L [S "c"; n; d] -> PConst (q_of (L [n; d])) | L [S "fn"] -> PFn | _ -> failwith "param" in
+      let lam = function
+        | L [] -> None
+        | L tbl -> let arr = Array.of_list (List.map q_of tbl) in
+                   Some (fun s -> let i = int_of_nat s in if i < Array.length arr then arr.(i) else q_of (L [I 1; I 1]))
+        | _ -> failwith "lambda" in
+      let p = (match List.map par ps with
+        | [a; b; c; d; e; f] -> { p_fus = a; p_ius = b; p_damping = c; p_decay = d; p_kl = e; p_lr = f }
+        | _ -> failwith "six params") in
+      let l = (match List.map lam ls with
+        | [a; b; c; d; e; f] -> { l_fus = a; l_ius = b; l_damping = c; l_decay = d; l_kl = e; l_lr = f }
+        | _ -> failwith "six lambdas") in
+      let op = function L [S "s"; I e] -> SchedStep (if e < 0 then None else Some (nat_of_int e)) | L [S "p"] -> PrecondStep | _ -> failwith "sop" in
+      let vpar = function PConst q -> vq q | PFn -> S "fn" in
+      let states = srun l (p, O) (List.map op ops) in
+      L [ vbool (ctor_ok p l);
+          vlist (fun (q, st) -> L [vpar q.p_fus; vpar q.p_ius; vpar q.p_damping; vpar q.p_decay; vpar q.p_kl; vpar q.p_lr; vnat st]) states ]
+  | "exp_decay_q", L [L [I n; I d]; L ks] ->
+      let cap = { qnum = z_of_int n; qden = pos_of_int d } in
+      vlist (fun k -> match exp_decay_q cap (nat_of_int (geti k)) with
+                      | None -> S "error" | Some q -> L [I (int_of_z q.qnum); I (int_of_pos q.qden)]) ks
   | _ -> failwith ("unknown command or bad argument: " ^ cmd)
 
 let () =
